@@ -3,7 +3,8 @@ import Orb.WKT
 import Orb.WKTFloat
 
 /-!
-  Driver for C04 (WKT text round trip, typed entry points, re-spellings) and the WKT share of C05
+  Driver for C04 (WKT text round trip, typed entry points, re-spellings; `handleSeq`: a text returned
+  by an encoder call stays what it was across later calls) and the WKT share of C05
   (`handleHostile`: no panic, no timeout, allocation within `allocC·len + allocK`).
 
   `fmt %g` and `strconv.ParseFloat` are parameters of the model.  Every case line carries Go's own
@@ -367,6 +368,90 @@ def handleParse (inp out : Toks) : String :=
       else if mo != got then "diff " ++ " ; ".intercalate mo
       else "ok parse " ++ tagOfOutcome (got.headD "")
 
+/-! ### op `seq`: several encoder calls in a row, every result kept, all judged afterwards
+
+  "A returned text must stay what it was": the `[]byte` / `string` handed out by `wkt.Marshal` /
+  `wkt.MarshalString` belongs to the caller.  It must still be the model's text of ITS value after any
+  number of later encoder calls (same or another goroutine), it must still parse back to its value
+  then, and overwriting it (up to its capacity) must not change what a later call returns.
+
+  `seq <mode> n (entry gval)*n | F… T… => (callhex ; endhex|= ; outcome ; freshhex|=)*n` -/
+
+def seqItem : P (Nat × GVal UInt64) := fun ts => do
+  let (c, ts) ← nat ts
+  let (v, ts) ← gval ts
+  pure ((c, v), ts)
+
+def entryName (c : Nat) : String := if c == 0 then "bytes" else "string"
+
+/-- `wkt.Unmarshal` of the model under both miss policies -/
+def modelUnmarshal (t : PT) (s : Str) : Option String :=
+  let a := showR (unmarshal (mkParse t none) s)
+  let b := showR (unmarshal (mkParse t (some 0)) s)
+  if a == b then some a else none
+
+def handleSeq (inp out : Toks) : String :=
+  match (do
+    let (mode, i) ← tok inp
+    let (items, i) ← counted seqItem i
+    let ((f, t), _) ← parseTables i
+    pure (mode, items, f, t)) with
+  | none => "bad input"
+  | some (mode, items, f, t) =>
+    let n := items.length
+    if out == ["panic"] then "propfail marshal-panic seq" else
+    let secs := joinToks (splitSemi out)
+    if secs.length != 4 * n then "bad output" else
+    let fmt := mkFmt f
+    -- rows: (index, entry, value, text at call, kept text at the end, outcome, fresh text)
+    let rows := (List.range n).filterMap fun k =>
+      match items[k]?, secs[4*k]?, secs[4*k+1]?, secs[4*k+2]?, secs[4*k+3]? with
+      | some (c, v), some a, some e, some o, some fr =>
+        some (k, c, v, a, (if e == "=" then a else e), o, (if fr == "=" then a else fr))
+      | _, _, _, _, _ => none
+    if rows.length != n then "bad output" else
+    -- (1) the kept result is still the text that was returned
+    match rows.find? (fun (_, _, _, a, e, _, _) => e != a) with
+    | some (k, c, _, _, _, _, _) =>
+      s!"propfail marshal-result-changed {entryName c} item {k} of {n} mode {mode}"
+    | none =>
+    -- (2) writing into a result the caller owns does not change a later call's text
+    match rows.find? (fun (_, _, _, a, _, _, fr) => fr != a) with
+    | some (k, c, _, _, _, _, _) =>
+      s!"propfail marshal-after-overwrite {entryName c} item {k} of {n} mode {mode}"
+    | none =>
+    -- (3) every text is the model's text, every kept text parses as the model says, and back to its value
+    let verdicts := rows.map fun (k, _, v, a, _, o, _) =>
+      match marshal fmt v with
+      | .ok mtext =>
+        (match modelUnmarshal t mtext with
+         | none => (2, "diff table-miss")
+         | some mo =>
+           if o == "panic" then (0, "propfail panic") else
+           let agree := hexOfStr mtext == a && mo == o
+           match canonV v with
+           | none => if agree then (9, "nil") else (2, s!"diff seq item {k} {hexOfStr mtext} ; {mo}")
+           | some g =>
+             if !isFinite g then (if agree then (8, "nonfinite") else (2, s!"diff seq item {k} {hexOfStr mtext} ; {mo}")) else
+             if hasEmptyMember g then
+               (if agree && o == "err notwkt" then (9, "both-fail") else
+                if !agree then (2, s!"diff seq item {k} {hexOfStr mtext} ; {mo}") else (1, "propfail empty-member-undocumented seq"))
+             else if o != "ok " ++ showGeom g then (1, "propfail roundtrip " ++ failClass fmt g ++ s!" seq item {k}")
+             else if !agree then (2, s!"diff seq item {k} {hexOfStr mtext} ; {mo}")
+             else (9, "ok"))
+      | _ => (3, "bad marshal-of-impossible-value")
+    match verdicts.find? (·.1 == 0), verdicts.find? (·.1 == 1), verdicts.find? (·.1 == 2), verdicts.find? (·.1 == 3) with
+    | some (_, m), _, _, _ => m
+    | _, some (_, m), _, _ => m
+    | _, _, some (_, m), _ => m
+    | _, _, _, some (_, m) => m
+    | _, _, _, _ =>
+      match floatAssumption f (mkParse t none) with
+      | some d => d
+      | none =>
+        let kinds := (if items.any (·.1 == 0) then " bytes" else "") ++ (if items.any (·.1 != 0) then " string" else "")
+        s!"ok seq {mode}{kinds}" ++ (if n ≥ 4 then " n>=4" else "")
+
 /-! ### C05: hostile input
 
   `allocC·len + allocK` bounds `runtime.MemStats.TotalAlloc` around one `wkt.Unmarshal` call.
@@ -407,7 +492,7 @@ def handleHostile (inp out : List String) : String :=
         | some mo =>
           if got.any (· == "panic") then "propfail panic"
           else if bytes > allocC * s.length + allocK then
-            "propfail alloc " ++ (if onCollectionPath s then "collection-quadratic" else "other")
+            "propfail alloc " ++ (if onCollectionPath s then "collection-quadratic" else "other") ++ s!" bytes={bytes} len={s.length}"
           else if mo != got then "diff " ++ " ; ".intercalate mo
           else "ok hostile " ++ tagOfOutcome (got.headD "")
     | _ => "bad output"
@@ -421,6 +506,7 @@ def handle (ts : Toks) : String :=
     | "respell" => handleRespell inp out
     | "parse" => handleParse inp out
     | "hostile" => handleHostile inp out
+    | "seq" => handleSeq inp out
     | _ => "bad op " ++ op
   | [] => "bad empty"
 
